@@ -190,6 +190,59 @@ pub fn reclaim_protocol_d<const IDLE: bool, const THIRD: bool, const VAR: u8, co
     let _ = &w; // ManuallyDrop: never dropped
 }
 
+// ------------------------------------------------------------------------------------------
+// C16 unit level, two retirements racing: handle A retires an object (outer operation, preempted
+// at every shared access, lock and allocation call of MemoryManager::free) while handle B retires
+// the object that crosses the threshold (start_free: the waiting list becomes the batch of a NEW
+// epoch).  Nobody announces the new epoch in this scenario, so nothing may be deallocated: a
+// batch reclaimed here is reclaimed while other handles may still be reading it.
+pub struct FreeFree;
+
+impl Prog for FreeFree {
+    const NACT: usize = 2;
+    const LEN: [u8; MAXACT] = [1, 1, 0, 0];
+    const BASE: [usize; MAXACT] = [0, 4, 0, 0];
+    fn step(_a: usize, _k: usize) {
+        let w = mw();
+        let p: *mut u64 = Box::into_raw(Box::new(0u64));
+        w.mgr.free(p, 1);
+    }
+}
+
+pub fn free_vs_free(preload: usize, force_site: u16) {
+    // forced-site mode: B's free() runs ALWAYS at the force_site-th site of A's (a solver-chosen site makes the
+    // lengths of the manager's vectors symbolic: out of memory after 340 s)
+    sched::configure(1, 1, sched::MEM_KINDS | (1 << sched::K_ALLOC), 1);
+    sched::force(force_site, 1, [1; 4]);
+    let mgr = MemoryManager::new();
+    let (cursor, r0) = ReadCursor::new(2);
+    let tw = mgr.get_token();
+    let tr = mgr.get_token();
+    let mut w = MemWorld { mgr, cursor, r0, r1: None, tw, tr, scans: 0 };
+    unsafe { MEMW = &mut w };
+    let frees0 = al().total_frees;
+    let mut i = 0;
+    while i < preload {
+        let p: *mut u64 = Box::into_raw(Box::new(0u64));
+        w.mgr.free(p, 1);
+        i += 1;
+    }
+    run_concurrent::<FreeFree, 0>();
+    kani::cover!(sched::st().injected > 0, "an operation ran at a preemption point");
+    kani::cover!(w.mgr.signal.load(Ordering::Relaxed).get_epoch(), "the threshold was crossed: a new epoch is pending");
+    kani::cover!(sched::st().site_no < force_site, "the forced site lies past the end of the outer operation");
+    assert!(
+        al().total_frees == frees0,
+        "C16: retired memory was reclaimed although no handle had announced the epoch in which it was handed over (other handles may still be reading it)"
+    );
+    let _ = &w; // ManuallyDrop: never dropped
+}
+
+crate::mq_harness_real!(c16_free_vs_free_f1, hk_c16_free_vs_free_f1, Runner<FreeFree, 0>, free_vs_free(20, 1));
+crate::mq_harness_real!(c16_free_vs_free_f2, hk_c16_free_vs_free_f2, Runner<FreeFree, 0>, free_vs_free(20, 2));
+crate::mq_harness_real!(c16_free_vs_free_f3, hk_c16_free_vs_free_f3, Runner<FreeFree, 0>, free_vs_free(20, 3));
+crate::mq_harness_real!(c16_free_vs_free_f4, hk_c16_free_vs_free_f4, Runner<FreeFree, 0>, free_vs_free(20, 4));
+
 crate::mq_harness_real!(c16_protocol_o0, hk_c16_protocol_o0, Runner<MemProg<false, false, 0>, 0>, reclaim_protocol::<false, 0>(20, 2));
 crate::mq_harness_real!(c16_protocol_o1, hk_c16_protocol_o1, Runner<MemProg<false, false, 0>, 1>, reclaim_protocol::<false, 1>(20, 2));
 crate::mq_harness_real!(c16_protocol_idle_o0, hk_c16_protocol_idle_o0, Runner<MemProg<true, false, 0>, 0>, reclaim_protocol::<true, 0>(20, 2));
